@@ -20,13 +20,38 @@ def short(s, n=400):
 
 def run(ctx):
     ctx.build_harness()
+    # translator: the pinned definitions of defs.jq as the real parser reads them
+    gen = ctx.harness(["c11", "defs"])
+    if "def defs : List DefRow" not in gen:
+        raise verif.CheckError("c11 defs printed no table")
+    if ctx.write_gen("C11Defs", gen):
+        ctx.log("Gen/C11Defs.lean changed (defs.jq differs from the committed transcription)")
     ctx.build_model()
     proof = ctx.lean_check()
+    if not proof["ok"]:
+        ctx.notes.append("Props/C11 no longer builds; if `defs_as_transcribed` is the failing theorem, a definition in defs.jq "
+                         "changed: the equations below search for an input on which it now violates its defining equation")
     ctx.log("lean:", "ok" if proof["ok"] else "BROKEN", len(proof["theorems"]), "theorems")
 
     with cf.ThreadPoolExecutor(max_workers=4) as ex:
         futs = {k: ex.submit(ctx.harness, ["c11", k]) for k in ("nat", "range", "fold", "eqs")}
         outs = {k: f.result() for k, f in futs.items()}
+
+    # a case that no longer terminates (the harness watchdog names it and ends that generator)
+    hangs = 0
+    for part, out in outs.items():
+        for l in out.splitlines():
+            if l.startswith("HANG\t"):
+                hangs += 1
+                case = l.split("\t", 1)[1]
+                ctx.violation("c11-hang:%s:%s" % (part, case),
+                              "a bounded run of the real code does not terminate within 240 s (stream combinator pulls more than "
+                              "its defining equation allows, or a generator diverges): %s" % short(case, 200),
+                              {"generator": part, "case": case,
+                               "replay": "harness/target/debug/jaqverif c11 run '<program>' '<input json>' (see case; vars in VX)"},
+                              broken=["termination of bounded case in c11-" + part])
+    if hangs:
+        ctx.log("hanging cases: %d" % hangs)
 
     # ---------------------------------------------------------------- correspondence
     total = 0
@@ -36,7 +61,7 @@ def run(ctx):
     skipped_fuel = 0
     disagreements = 0
     for part in ("nat", "range", "fold"):
-        rows = [l.split("\t") for l in outs[part].splitlines() if l and not l.startswith("SKIP")]
+        rows = [l.split("\t") for l in outs[part].splitlines() if l and not l.startswith("SKIP") and not l.startswith("HANG")]
         rows = [r for r in rows if len(r) >= 3]
         for l in outs[part].splitlines():
             if l.startswith("SKIP"):
@@ -78,7 +103,8 @@ def run(ctx):
             ctx.violation("c11-corr:%s:%s:%s" % (op, prog, inp),
                           "real `%s` differs from the proved model of funs.rs/fold.rs" % prog,
                           {"program": prog, "input_and_vars_vx": inp, "request": r[1], "real": r[2], "model": m,
-                           "replay": "harness/target/debug/jaqverif c11 run '<program>' '<input json>'"},
+                           "replay": "harness/target/debug/jaqverif c11 run '<program>' '<input as jq literal>' [n=<vx> | a=<vx> b=<vx> c=<vx>]  "
+                                     "(VX tokens of a compound value joined by '+'); prints the real outcome to compare with `model`"},
                           broken=["correspondence c11-" + part])
         ctx.log("correspondence %s: %d cases, %d disagreements" % (part, len(rows), len(bad)))
 
@@ -117,7 +143,7 @@ def run(ctx):
                        "replay": "jaq -c '[try ((LHS) | [\"V\", .]) catch [\"E\", .]]' <<< INPUT   (same for RHS)"},
                       broken=["equation " + p[1]])
     ctx.log("equations: %d evaluated, %d fail, %d skipped" % (eq_tot, eq_fail, eq_skip))
-    if eq_tot < 1000 or total < 1000:
+    if (eq_tot < 1000 or total < 1000) and not hangs:
         raise verif.CheckError("generator produced too few cases (%d corr, %d eqs)" % (total, eq_tot))
 
     ctx.coverage.update({
